@@ -14,8 +14,8 @@ import (
 
 func init() {
 	register("C11", &propDef{
-		Run: checkC11,
-		Explanation: "Static decision of the record/delivery correspondence. (1) Input: the 'Shell I/O' record of the input proxy lies below the nil edges of both the write's and the flush's error, on every path from a successful flush to the next receive, at Info level or above, and its data operand is the string that was written. (2) Output: the record of the output proxy is control-dependent exactly on the arm of the select in which the chunk was handed to the operator channel, lies on every path from that arm to the next dequeue, and carries the chunk that was handed over. (3) Connections: on every path of the admission function (all abstract states) an attached stream logs 'New connection' once before its proxy runs and exactly one 'Disconnected' record afterwards (Error iff the proxy failed), a refused attempt outside shutdown logs an Error record whose reason is true of the state, and the logger handed to the proxy carries the direction attribute. (4) Wiring: main builds the logger from slog.NewJSONHandler at the default level over io.Discard or the -log file opened O_APPEND|O_CREATE|O_WRONLY, passes it to the server, whose per-request logger adds the request attributes and is what the handlers give to the broker. slog's JSON escaping and one-object-per-line framing are trusted.",
+		Run:         checkC11,
+		Explanation: "Static decision of the record/delivery correspondence. (1) Input: the 'Shell I/O' record of the input proxy lies below the nil edges of both the write's and the flush's error, on every path from a successful flush to the next receive, at Info level or above, and its data operand is the string that was written. (2) Output: the record of the output proxy is control-dependent exactly on the arm of the select in which the chunk was handed to the operator channel, lies on every path from that arm to the next dequeue, and carries the chunk that was handed over. (3) Connections: on every path of the admission function (all abstract states) an attached stream logs 'New connection' once before its proxy runs and exactly one 'Disconnected' record afterwards (Error iff the proxy failed), a refused attempt outside shutdown logs an Error record whose reason is true of the state, and the logger handed to the proxy carries the direction attribute. (4) Wiring: main builds the logger from slog.NewJSONHandler at the default level over io.Discard or the -log file opened O_APPEND|O_CREATE|O_WRONLY, passes it to the server, whose per-request logger adds the request attributes and is what the handlers give to the broker. slog's JSON escaping and one-object-per-line framing are trusted. Also: each shell-route handler reaches its broker call on every path from entry, except below a ResponseController error edge or after an slog Error call.",
 		Assumptions: []string{"log/slog's JSON handler writes one escaped JSON object per record and line", "records below the handler's level are dropped (default level: Info)"},
 	})
 }
